@@ -104,6 +104,7 @@ pub struct MeasOracle {
     pub pd_ts: Vec<(usize, u16, i128)>,                    // (port, id, t1)
     pub pd_resps: Vec<(usize, String, u16, i128, i128, bool)>, // (port, responder, seq, t2 = reqRecv, t4' = recv - corr, two_step)
     pub pd_fus: Vec<(usize, String, u16, i128)>,           // (port, responder, seq, t3' = origin + corr)
+    pub saturated: u64,
 }
 
 fn be(b: &[u8], off: usize, w: usize) -> u128 {
@@ -111,6 +112,17 @@ fn be(b: &[u8], off: usize, w: usize) -> u128 {
 }
 
 impl MeasOracle {
+    /// the library keeps corrected timestamps in an unsigned `Time`: a correction larger than the timestamp it is
+    /// applied to leaves zero (since the `fix:` commit; the exact value would be negative). Counted: a measurement
+    /// built from such a timestamp deviates from the IEEE formula (known finding).
+    fn unsigned(&mut self, v: i128) -> i128 {
+        if v < 0 {
+            self.saturated += 1;
+            0
+        } else {
+            v
+        }
+    }
     fn wire_time(b: &[u8], off: usize) -> i128 {
         ((be(b, off, 6) * 1_000_000_000 + be(b, off + 6, 4)) << 32) as i128
     }
@@ -161,15 +173,28 @@ impl MeasOracle {
                 let recv: i128 = if w[1] == "EVT" { w.get(3).and_then(|x| x.parse().ok()).unwrap_or(0) } else { 0 };
                 match ty {
                     0x0 if w[1] == "EVT" => {
-                        self.syncs.push((k, src.clone(), seq, recv - corr));
+                        let v = self.unsigned(recv - corr);
+                        self.syncs.push((k, src.clone(), seq, v));
                         if b[6] & 0x02 == 0 {
                             self.one_step.push((k, src, seq, Self::wire_time(&b, 34)));
                         }
                     }
-                    0x8 => self.fus.push((k, src, seq, Self::wire_time(&b, 34) + corr)),
-                    0x9 if len >= 54 => self.dresps.push((k, src, seq, Self::pid(&b, 44), Self::wire_time(&b, 34) - corr)),
-                    0x3 if w[1] == "EVT" && len >= 54 => self.pd_resps.push((k, src, seq, Self::wire_time(&b, 34), recv - corr, b[6] & 0x02 != 0)),
-                    0xa if len >= 54 => self.pd_fus.push((k, src, seq, Self::wire_time(&b, 34) + corr)),
+                    0x8 => {
+                        let v = self.unsigned(Self::wire_time(&b, 34) + corr);
+                        self.fus.push((k, src, seq, v))
+                    }
+                    0x9 if len >= 54 => {
+                        let v = self.unsigned(Self::wire_time(&b, 34) - corr);
+                        self.dresps.push((k, src, seq, Self::pid(&b, 44), v))
+                    }
+                    0x3 if w[1] == "EVT" && len >= 54 => {
+                        let v = self.unsigned(recv - corr);
+                        self.pd_resps.push((k, src, seq, Self::wire_time(&b, 34), v, b[6] & 0x02 != 0))
+                    }
+                    0xa if len >= 54 => {
+                        let v = self.unsigned(Self::wire_time(&b, 34) + corr);
+                        self.pd_fus.push((k, src, seq, v))
+                    }
                     _ => {}
                 }
             }
@@ -260,9 +285,13 @@ impl<'a> Gen<'a> {
                 return String::new();
             }
         }
+        let sat_before = self.meas.saturated;
         self.meas.note_op(&line);
         let parent_before = self.w.parent.clone();
         let obs = self.ex.exec(&line);
+        if self.meas.saturated > sat_before && obs.contains(":meas ") {
+            self.out.oracle("C09", "corrected-timestamp-saturates-at-zero", &format!("{line} -> the correction field exceeds the timestamp it is applied to; the library keeps corrected timestamps unsigned, so it continues with 0 and the measurement it hands to the filter is not the IEEE formula of this exchange"));
+        }
         for (prop, sig, detail) in self.meas.check_obs(&self.w.own_clock, &parent_before, &line, &obs) {
             self.out.oracle(prop, &sig, &detail);
         }
@@ -288,6 +317,22 @@ impl<'a> Gen<'a> {
         if obs == "R panic" {
             self.out.count("result.panic");
             self.dead = true;
+            // C03: every call returns normally. The signature names the panic site (source file + message).
+            let site = crate::out::last_panic();
+            // which kind of call: op class (+ message type of a received frame)
+            let ws: Vec<&str> = line.split_whitespace().collect();
+            let call = if ws[0].starts_with('P') && ws[0] != "PORT" && ws.len() >= 3 {
+                match ws[1] {
+                    "GEN" | "EVT" => format!("{} type {}", ws[1], ws[2].get(1..2).unwrap_or("?")),
+                    "TMR" | "TXTS" => format!("{} {}", ws[1], ws[2]),
+                    x => x.to_string(),
+                }
+            } else {
+                ws[0].to_string()
+            };
+            let sig = format!("panic in {} at {}", call, site).replace('\t', " ");
+            self.out.count(&format!("c03.{sig}"));
+            self.out.oracle("C03", &sig, &format!("{line} -> the call panicked ({site})"));
         } else if obs.starts_with("- |") {
             self.out.count("result.no-output");
         } else {
@@ -481,6 +526,7 @@ impl<'a> Gen<'a> {
         );
         // masters
         let nm = 1 + rng.below(3) as usize;
+        let bmca_first = rng.chance(1, 12);
         let mut masters = Vec::new();
         for _ in 0..nm {
             let clock = *rng.pick(&CLOCKS);
@@ -498,6 +544,10 @@ impl<'a> Gen<'a> {
         let start = *rng.pick(&[1_700_000_000u128 * SEC, 5 * SEC, 0, ((1u128 << 63) - 20_000_000_000) * F32, 1u128 << 79]);
         self.w = World { own_clock: own, own_sdo: sdo, own_domain: domain, masters, ports: vec![], parent: String::new(), now: start, path_trace, slave_only, own_p1: p1, own_class: class };
         self.emit(line);
+        if bmca_first {
+            // a BMCA run before any port exists
+            self.emit("BMCA".to_string());
+        }
         let np = 1 + rng.below(3) as usize;
         for _ in 0..np {
             if self.dead {
